@@ -48,7 +48,7 @@ def main(ctx):
     if not ok:
         raise vf.CheckerBroken("ModelC27.v does not compile: " + out[-1500:])
     bindir = ctx.harness(GROUP, profile="release", bins=["c27"])
-    cases = ctx.gen_exec(bindir, "c27", ctx.n(150, 3000), inputs=ctx.replay_inputs())
+    cases = ctx.gen_exec(bindir, "c27", ctx.n(120, 1000), inputs=ctx.replay_inputs())
     lim = int(os.environ.get("VERIF_BPE_LIMIT", "0"))   # debugging aid (mutation experiments): stratified subset
     if lim and len(cases) > lim:
         cases = cases[::len(cases) // lim]
